@@ -821,3 +821,474 @@ func checkCpIncrTable(c *Ctx, l *Loaded, rule, label string, fn *ssa.Function) {
 		c.decide(rule, label+": "+sc.name, l.pos(fn.Pos()), got == sc.want, got, "does `"+got+"`, increment-with-carry is `"+sc.want+"` (a 0xFF byte becomes 0x00 and the carry moves left; all-0xFF overflows to nil)")
 	}
 }
+
+// checkV2RemoveLookup pins v2's in-place removal and its lookup as event
+// sequences over (leaf / inner) × ordering × outcome of the recursive call.
+func checkV2RemoveLookup(c *Ctx, l *Loaded) {
+	c.rule("TABLE-v2-remove", "v2 removal: leaf answer, descent direction, collapse, routing-key patch, orphan/mutate protocol", 10)
+	c.rule("TABLE-v2-lookup", "v2 lookup: leaf answers and descent direction", 5)
+	rr := l.Func("", "*Tree.recursiveRemove")
+	get := l.Func("", "*Node.get")
+	if rr == nil || get == nil {
+		c.anchorMissing("TABLE-v2-remove", "v2 Tree.recursiveRemove / Node.get")
+		return
+	}
+	ev := func(call *ssa.Call) string {
+		f := staticCallee(&call.Call)
+		if f == nil || !l.inModule(f) {
+			return ""
+		}
+		switch f.Name() {
+		case "mutateNode", "setLeft", "setRight", "calcHeightAndSize", "balance", "recursiveRemove", "addOrphan", "addDelete", "returnNode", "get":
+		default:
+			return ""
+		}
+		var as []string
+		for _, a := range call.Call.Args {
+			as = append(as, roleOf(l, a, "", 0))
+		}
+		return f.Name() + "(" + strings.Join(as, ",") + ")"
+	}
+	stKey := func(st *ssa.Store) string {
+		if fa, ok := st.Addr.(*ssa.FieldAddr); ok {
+			switch fieldName(fa.X.Type(), fa.Field) {
+			case "key", "value", "subtreeHeight", "size":
+				if n := derefNamed(fa.X.Type()); n != nil && n.Obj().Name() == "Node" {
+					return fieldName(fa.X.Type(), fa.Field) + ":=" + roleOf(l, st.Val, "", 0)
+				}
+			}
+		}
+		return ""
+	}
+	rets := func(run tableRun, n int) string {
+		if run.ret == nil {
+			return "stuck"
+		}
+		var ps []string
+		for i := 0; i < n; i++ {
+			ps = append(ps, roleOf(l, retVal(run.ret, i), "", 0))
+		}
+		return strings.Join(ps, " | ")
+	}
+	want := v2RemoveWant
+	// leaf
+	for _, eq := range []bool{true, false} {
+		eq := eq
+		env := &tableEnv{l: l, flag: map[string]int{"isLeaf()": 1}, cmp: func(a, b string) (int, bool) {
+			if eq {
+				return 0, true
+			}
+			return 1, true
+		}}
+		run := runTableS(rr, env, ev, stKey)
+		got := strings.Join(run.events, " ; ") + " => " + rets(run, 4)
+		k := fmt.Sprintf("leaf eq=%v", eq)
+		c.decide("TABLE-v2-remove", "v2 recursiveRemove at a "+k, l.pos(rr.Pos()), got == want[k], got, "removal does `"+got+"`, the rule is `"+want[k]+"`")
+	}
+	type oc struct {
+		name                        string
+		removed, childNil, newKeyNil int
+	}
+	for _, ord := range []int{-1, 1} {
+		for _, o := range []oc{{"not found", -1, -1, 1}, {"collapse", 1, 1, 1}, {"deeper newkey", 1, -1, -1}, {"deeper", 1, -1, 1}} {
+			ord, o := ord, o
+			env := &tableEnv{l: l, flag: map[string]int{"isLeaf()": -1, "recursiveRemove()#3": o.removed}, cmp: func(a, b string) (int, bool) {
+				if a == "arg1" && strings.HasSuffix(b, ".key") {
+					return ord, true
+				}
+				return 0, false
+			}}
+			env.isNil = func(role string) int {
+				switch {
+				case strings.HasPrefix(role, "recursiveRemove(") && strings.HasSuffix(role, "#0"):
+					return o.childNil
+				case strings.HasPrefix(role, "recursiveRemove(") && strings.HasSuffix(role, "#1"):
+					return o.newKeyNil
+				}
+				return 0
+			}
+			run := runTableS(rr, env, ev, stKey)
+			got := strings.Join(run.events, " ; ") + " => " + rets(run, 4)
+			k := fmt.Sprintf("inner ord=%d %s", ord, o.name)
+			c.decide("TABLE-v2-remove", "v2 recursiveRemove at an "+k, l.pos(rr.Pos()), got == want[k], got, "removal does `"+got+"`, the rule is `"+want[k]+"`")
+		}
+	}
+	// lookup
+	for _, ord := range []int{-1, 0, 1} {
+		ord := ord
+		env := &tableEnv{l: l, flag: map[string]int{"isLeaf()": 1}, cmp: func(a, b string) (int, bool) {
+			// bytes.Compare(node.key, key)
+			if strings.HasSuffix(a, "key") && b == "arg1" {
+				return ord, true
+			}
+			if a == "arg1" && strings.HasSuffix(b, "key") {
+				return -ord, true
+			}
+			return 0, false
+		}}
+		run := runTableS(get, env, ev, stKey)
+		got := strings.Join(run.events, " ; ") + " => " + rets(run, 3)
+		k := fmt.Sprintf("get leaf node.key vs key %d", ord)
+		c.decide("TABLE-v2-lookup", "v2 "+k, l.pos(get.Pos()), got == want[k], got, "lookup does `"+got+"`, the rule is `"+want[k]+"`")
+	}
+	for _, ord := range []int{-1, 1} {
+		ord := ord
+		env := &tableEnv{l: l, flag: map[string]int{"isLeaf()": -1}, cmp: func(a, b string) (int, bool) {
+			if a == "arg1" && strings.HasSuffix(b, "key") {
+				return ord, true
+			}
+			return 0, false
+		}}
+		env.isNil = func(role string) int {
+			if strings.Contains(role, "getLeftNode(") || strings.Contains(role, "getRightNode(") {
+				if strings.HasSuffix(role, "#1") {
+					return 1 // no error
+				}
+			}
+			return 0
+		}
+		run := runTableS(get, env, func(call *ssa.Call) string {
+			f := staticCallee(&call.Call)
+			if f == nil {
+				return ""
+			}
+			switch f.Name() {
+			case "getLeftNode", "getRightNode":
+				return f.Name()
+			case "get":
+				return "get(" + roleOf(l, call.Call.Args[0], "", 0) + "," + roleOf(l, call.Call.Args[2], "", 0) + ")"
+			}
+			return ""
+		}, stKey)
+		got := strings.Join(run.events, " ; ") + " => " + rets(run, 3)
+		k := fmt.Sprintf("get inner key vs node.key %d", ord)
+		c.decide("TABLE-v2-lookup", "v2 "+k, l.pos(get.Pos()), got == want[k], got, "lookup does `"+got+"`, the rule is `"+want[k]+"`")
+	}
+}
+
+var v2RemoveWant = map[string]string{
+	"get inner key vs node.key -1": "getLeftNode ; get(getLeftNode(recv,arg0)#0,arg1) => get(getLeftNode(recv,arg0)#0,arg0,arg1)#0 | get(getLeftNode(recv,arg0)#0,arg0,arg1)#1 | get(getLeftNode(recv,arg0)#0,arg0,arg1)#2",
+	"get inner key vs node.key 1": "getRightNode ; get(getRightNode(recv,arg0)#0,arg1) => (get(getRightNode(recv,arg0)#0,arg0,arg1)#0+(recv.size-getRightNode(recv,arg0)#0.size)) | get(getRightNode(recv,arg0)#0,arg0,arg1)#1 | nil",
+	"get leaf node.key vs key -1": " => 1 | nil | nil",
+	"get leaf node.key vs key 0": " => 0 | recv.value | nil",
+	"get leaf node.key vs key 1": " => 0 | nil | nil",
+	"inner ord=-1 collapse": "recursiveRemove(recv,left(arg0,recv),arg1) ; addOrphan(recv,arg0) ; returnNode(recv,arg0) => right(arg0,recv) | arg0.key | recursiveRemove(recv,left(arg0,recv),arg1)#2 | recursiveRemove(recv,left(arg0,recv),arg1)#3",
+	"inner ord=-1 deeper": "recursiveRemove(recv,left(arg0,recv),arg1) ; addOrphan(recv,arg0) ; mutateNode(recv,arg0) ; setLeft(arg0,recursiveRemove(recv,left(arg0,recv),arg1)#0) ; calcHeightAndSize(arg0,recv) ; balance(recv,arg0) => balance(recv,arg0)#0 | recursiveRemove(recv,left(arg0,recv),arg1)#1 | recursiveRemove(recv,left(arg0,recv),arg1)#2 | recursiveRemove(recv,left(arg0,recv),arg1)#3",
+	"inner ord=-1 deeper newkey": "recursiveRemove(recv,left(arg0,recv),arg1) ; addOrphan(recv,arg0) ; mutateNode(recv,arg0) ; setLeft(arg0,recursiveRemove(recv,left(arg0,recv),arg1)#0) ; calcHeightAndSize(arg0,recv) ; balance(recv,arg0) => balance(recv,arg0)#0 | recursiveRemove(recv,left(arg0,recv),arg1)#1 | recursiveRemove(recv,left(arg0,recv),arg1)#2 | recursiveRemove(recv,left(arg0,recv),arg1)#3",
+	"inner ord=-1 not found": "recursiveRemove(recv,left(arg0,recv),arg1) => arg0 | nil | recursiveRemove(recv,left(arg0,recv),arg1)#2 | recursiveRemove(recv,left(arg0,recv),arg1)#3",
+	"inner ord=1 collapse": "recursiveRemove(recv,right(arg0,recv),arg1) ; addOrphan(recv,arg0) ; returnNode(recv,arg0) => left(arg0,recv) | nil | recursiveRemove(recv,right(arg0,recv),arg1)#2 | recursiveRemove(recv,right(arg0,recv),arg1)#3",
+	"inner ord=1 deeper": "recursiveRemove(recv,right(arg0,recv),arg1) ; addOrphan(recv,arg0) ; mutateNode(recv,arg0) ; setRight(arg0,recursiveRemove(recv,right(arg0,recv),arg1)#0) ; calcHeightAndSize(arg0,recv) ; balance(recv,arg0) => balance(recv,arg0)#0 | nil | recursiveRemove(recv,right(arg0,recv),arg1)#2 | recursiveRemove(recv,right(arg0,recv),arg1)#3",
+	"inner ord=1 deeper newkey": "recursiveRemove(recv,right(arg0,recv),arg1) ; addOrphan(recv,arg0) ; mutateNode(recv,arg0) ; setRight(arg0,recursiveRemove(recv,right(arg0,recv),arg1)#0) ; key:=recursiveRemove(recv,right(arg0,recv),arg1)#1 ; calcHeightAndSize(arg0,recv) ; balance(recv,arg0) => balance(recv,arg0)#0 | nil | recursiveRemove(recv,right(arg0,recv),arg1)#2 | recursiveRemove(recv,right(arg0,recv),arg1)#3",
+	"inner ord=1 not found": "recursiveRemove(recv,right(arg0,recv),arg1) => arg0 | nil | recursiveRemove(recv,right(arg0,recv),arg1)#2 | recursiveRemove(recv,right(arg0,recv),arg1)#3",
+	"leaf eq=false": " => arg0 | nil | nil | false",
+	"leaf eq=true": "addDelete(recv,arg0) ; returnNode(recv,arg0) => nil | nil | arg0.value | true",
+}
+
+// checkV2IterTable walks one iteration of the v2 tree iterator's step loops
+// for every combination of node kind, bounds present/absent, ordering of the
+// node key against the bounds, inclusiveness and "already started".
+//   ascending leaf : key < start (before the first yield) ⇒ skip; past the end ⇒ stop; else yield
+//   ascending inner: start < routing key ⇒ visit left then right; else right only
+//   descending leaf: before the first yield, key > end (>= end if exclusive) ⇒ skip; key < start ⇒ stop; else yield
+//   descending inner: end absent or routing key <= end ⇒ visit right then left; else left only
+//   isPastEndAscend(key): end present and key > end (>= end if exclusive); isPastEndDescend(key): start present and key < start
+func checkV2IterTable(c *Ctx, l *Loaded) {
+	const R = "TABLE-v2-iter"
+	c.rule(R, "v2 tree iterator: per-node skip / stop / yield / descent decision over all bound and ordering combinations", 40)
+	asc, desc := l.Func("", "*TreeIterator.stepAscend"), l.Func("", "*TreeIterator.stepDescend")
+	pea, ped := l.Func("", "*TreeIterator.isPastEndAscend"), l.Func("", "*TreeIterator.isPastEndDescend")
+	if asc == nil || desc == nil || pea == nil || ped == nil {
+		c.anchorMissing(R, "TreeIterator.stepAscend / stepDescend / isPastEndAscend / isPastEndDescend")
+		return
+	}
+	b2i := func(b bool) int {
+		if b {
+			return 1
+		}
+		return -1
+	}
+	ev := func(call *ssa.Call) string {
+		f := staticCallee(&call.Call)
+		if f == nil || !l.inModule(f) {
+			return ""
+		}
+		if f.Name() == "push" {
+			r := roleOf(l, call.Call.Args[1], "", 0)
+			switch {
+			case strings.Contains(r, "getLeftNode("):
+				return "push-left"
+			case strings.Contains(r, "getRightNode("):
+				return "push-right"
+			}
+			return "push(" + r + ")"
+		}
+		return ""
+	}
+	st := func(s *ssa.Store) string {
+		fa, ok := s.Addr.(*ssa.FieldAddr)
+		if !ok {
+			return ""
+		}
+		n := derefNamed(fa.X.Type())
+		if n == nil || n.Obj().Name() != "TreeIterator" {
+			return ""
+		}
+		f := fieldName(fa.X.Type(), fa.Field)
+		switch f {
+		case "valid":
+			return "valid:=" + roleOf(l, s.Val, "", 0)
+		case "key":
+			return "yield"
+		}
+		return ""
+	}
+	outcome := func(run tableRun) string {
+		evs := strings.Join(run.events, ",")
+		switch {
+		case strings.Contains(evs, "<loop>"):
+			return strings.TrimSuffix(strings.TrimSuffix(evs, "<loop>"), ",") + "|next-node"
+		case run.ret == nil:
+			return evs + "|stuck"
+		}
+		return evs
+	}
+	// ---- helpers
+	for _, endNil := range []bool{true, false} {
+		for _, incl := range []bool{true, false} {
+			for _, ord := range []int{-1, 0, 1} {
+				if endNil && (ord != 0 || incl) {
+					continue
+				}
+				ord := ord
+				env := &tableEnv{l: l, flag: map[string]int{"inclusive": b2i(incl)}, cmp: func(a, b string) (int, bool) {
+					if a == "arg0" && b == "end" {
+						return ord, true
+					}
+					return 0, false
+				}}
+				env.isNil = func(role string) int {
+					if role == "end" {
+						return b2i(endNil)
+					}
+					return 0
+				}
+				run := runTable(pea, env, func(*ssa.Call) string { return "" })
+				got := "stuck"
+				if run.ret != nil {
+					got = roleOfBool(l, retVal(run.ret, 0), env)
+				}
+				want := "false"
+				if !endNil && (ord > 0 || (ord == 0 && !incl)) {
+					want = "true"
+				}
+				c.decide(R, fmt.Sprintf("isPastEndAscend: end absent=%v inclusive=%v key vs end %d", endNil, incl, ord), l.pos(pea.Pos()), got == want, got, "returns "+got+", rule "+want)
+			}
+		}
+	}
+	for _, startNil := range []bool{true, false} {
+		for _, ord := range []int{-1, 0, 1} {
+			if startNil && ord != 0 {
+				continue
+			}
+			ord := ord
+			env := &tableEnv{l: l, flag: map[string]int{}, cmp: func(a, b string) (int, bool) {
+				if a == "arg0" && b == "start" {
+					return ord, true
+				}
+				return 0, false
+			}}
+			env.isNil = func(role string) int {
+				if role == "start" {
+					return b2i(startNil)
+				}
+				return 0
+			}
+			run := runTable(ped, env, func(*ssa.Call) string { return "" })
+			got := "stuck"
+			if run.ret != nil {
+				got = roleOfBool(l, retVal(run.ret, 0), env)
+			}
+			want := "false"
+			if !startNil && ord < 0 {
+				want = "true"
+			}
+			c.decide(R, fmt.Sprintf("isPastEndDescend: start absent=%v key vs start %d", startNil, ord), l.pos(ped.Pos()), got == want, got, "returns "+got+", rule "+want)
+		}
+	}
+	// ---- ascending
+	for _, started := range []bool{false, true} {
+		for _, ordStart := range []int{-1, 0, 1} {
+			if started && ordStart < 0 {
+				continue // unreachable: once started every later key is >= start
+			}
+			for _, past := range []bool{false, true} {
+				ordStart := ordStart
+				env := &tableEnv{l: l, flag: map[string]int{"isLeaf()": 1, "started": b2i(started), "isPastEndAscend()": b2i(past)}, cmp: func(a, b string) (int, bool) {
+					if strings.HasSuffix(a, ".key") && b == "start" {
+						return ordStart, true
+					}
+					if a == "start" && strings.HasSuffix(b, ".key") {
+						return -ordStart, true
+					}
+					return 0, false
+				}}
+				env.isNil = func(role string) int {
+					if strings.HasPrefix(role, "pop(") {
+						return -1
+					}
+					return 0
+				}
+				got := outcome(runTableS(asc, env, ev, st))
+				want := "yield"
+				switch {
+				case !started && ordStart < 0:
+					want = "|next-node"
+				case past:
+					want = "valid:=false"
+				}
+				c.decide(R, fmt.Sprintf("ascending leaf: started=%v key vs start %d past end=%v", started, ordStart, past), l.pos(asc.Pos()), got == want, got, "does `"+got+"`, rule `"+want+"`")
+			}
+		}
+	}
+	for _, ord := range []int{-1, 0, 1} { // start vs routing key
+		ord := ord
+		env := &tableEnv{l: l, flag: map[string]int{"isLeaf()": -1}, cmp: func(a, b string) (int, bool) {
+			if a == "start" && strings.HasSuffix(b, ".key") {
+				return ord, true
+			}
+			if strings.HasSuffix(a, ".key") && b == "start" {
+				return -ord, true
+			}
+			return 0, false
+		}}
+		env.isNil = func(role string) int {
+			if strings.HasPrefix(role, "pop(") {
+				return -1
+			}
+			return 0
+		}
+		got := outcome(runTableS(asc, env, ev, st))
+		want := "push-right|next-node"
+		if ord < 0 {
+			want = "push-right,push-left|next-node"
+		}
+		c.decide(R, fmt.Sprintf("ascending inner: start vs routing key %d", ord), l.pos(asc.Pos()), got == want, got, "does `"+got+"`, rule `"+want+"` (the stack pops the left subtree first)")
+	}
+	// ---- descending.  Side condition (checked): no constructor builds a descending iterator with an
+	// inclusive end, so that combination is not part of the decision domain.
+	if tiT := l.NamedType("", "TreeIterator"); tiT == nil {
+		c.anchorMissing(R, "TreeIterator")
+	} else {
+		nLit := 0
+		for _, fn := range l.SrcFuncs {
+			if !l.inModule(fn) {
+				continue
+			}
+			for _, m := range structLiteralStores(fn, tiT) {
+				if len(m) == 0 {
+					continue
+				}
+				nLit++
+				asc := roleOf(l, m["ascending"], "", 0)
+				incl := "false"
+				if v, ok := m["inclusive"]; ok {
+					incl = roleOf(l, v, "", 0)
+				}
+				ok := asc == "true" || incl == "false"
+				c.decide(R, "TreeIterator built in "+l.fname(fn)+": descending ⇒ exclusive end", l.pos(fn.Pos()), ok, "ascending="+asc+" inclusive="+incl, "a descending iterator with an inclusive end is constructed (ascending="+asc+", inclusive="+incl+"): stepDescend skips the key equal to the end bound in that mode")
+			}
+		}
+		if nLit < 2 {
+			c.anchorMissing(R, "fewer than 2 TreeIterator literals")
+		}
+	}
+	for _, started := range []bool{false, true} {
+		for _, endNil := range []bool{true, false} {
+			for _, incl := range []bool{false} {
+				for _, ordEnd := range []int{-1, 0, 1} { // end vs key
+					if endNil && (ordEnd != 0 || incl) {
+						continue
+					}
+					if started && !endNil && (ordEnd < 0 || (ordEnd == 0 && !incl)) {
+						continue // unreachable once started
+					}
+					for _, past := range []bool{false, true} {
+						ordEnd := ordEnd
+						env := &tableEnv{l: l, flag: map[string]int{"isLeaf()": 1, "started": b2i(started), "inclusive": b2i(incl), "isPastEndDescend()": b2i(past)}, cmp: func(a, b string) (int, bool) {
+							if a == "end" && strings.HasSuffix(b, ".key") {
+								return ordEnd, true
+							}
+							if strings.HasSuffix(a, ".key") && b == "end" {
+								return -ordEnd, true
+							}
+							return 0, false
+						}}
+						env.isNil = func(role string) int {
+							if strings.HasPrefix(role, "pop(") {
+								return -1
+							}
+							if role == "end" {
+								return b2i(endNil)
+							}
+							return 0
+						}
+						got := outcome(runTableS(desc, env, ev, st))
+						want := "yield"
+						switch {
+						case !started && !endNil && (ordEnd < 0 || (ordEnd == 0 && !incl)):
+							want = "|next-node"
+						case past:
+							want = "valid:=false"
+						}
+						c.decide(R, fmt.Sprintf("descending leaf: started=%v end absent=%v inclusive=%v end vs key %d past start=%v", started, endNil, incl, ordEnd, past), l.pos(desc.Pos()), got == want, got, "does `"+got+"`, rule `"+want+"`")
+					}
+				}
+			}
+		}
+	}
+	for _, endNil := range []bool{true, false} {
+		for _, ord := range []int{-1, 0, 1} { // routing key vs end
+			if endNil && ord != 0 {
+				continue
+			}
+			ord := ord
+			env := &tableEnv{l: l, flag: map[string]int{"isLeaf()": -1}, cmp: func(a, b string) (int, bool) {
+				if strings.HasSuffix(a, ".key") && b == "end" {
+					return ord, true
+				}
+				if a == "end" && strings.HasSuffix(b, ".key") {
+					return -ord, true
+				}
+				return 0, false
+			}}
+			env.isNil = func(role string) int {
+				if strings.HasPrefix(role, "pop(") {
+					return -1
+				}
+				if role == "end" {
+					return b2i(endNil)
+				}
+				return 0
+			}
+			got := outcome(runTableS(desc, env, ev, st))
+			want := "push-left|next-node"
+			if endNil || ord <= 0 {
+				want = "push-left,push-right|next-node"
+			}
+			c.decide(R, fmt.Sprintf("descending inner: end absent=%v routing key vs end %d", endNil, ord), l.pos(desc.Pos()), got == want, got, "does `"+got+"`, rule `"+want+"` (the stack pops the right subtree first)")
+		}
+	}
+}
+
+// roleOfBool renders a boolean result under the environment: a constant, or
+// the value the environment gives a comparison.
+func roleOfBool(l *Loaded, v ssa.Value, env *tableEnv) string {
+	w := &walker{env: &walkEnv{evalAtom: env.atom}, vals: map[ssa.Value]int{}}
+	switch w.eval(v, 0) {
+	case 1:
+		return "true"
+	case -1:
+		return "false"
+	}
+	return roleOf(l, v, env.recv, 0)
+}
